@@ -15,7 +15,7 @@
 (* string (or a string) is something else; byte strings of the wrong       *)
 (* LENGTH are not errors, the predicates are simply FALSE for them.        *)
 (***************************************************************************)
-EXTENDS Naturals, Sequences
+EXTENDS Integers, Sequences
 
 \* LOCAL: other modules (e.g. Bytes) define Byte too; EXTENDing both must not clash.
 LOCAL Byte == 0..255
@@ -62,6 +62,9 @@ XOnlyTweakAddCheck(q32, parity, p32, tweak32) == CHOOSE v \in BOOLEAN : TRUE
 PubKeyCombine(pub1, pub2) == CHOOSE t \in BOOLEAN \X Seq(Byte) : TRUE
 PubKeyTweakMul(pub, t32) == CHOOSE t \in BOOLEAN \X Seq(Byte) : TRUE
 PubKeyParse(pub) == CHOOSE t \in BOOLEAN \X Seq(Byte) : TRUE
+
+(* Jacobi symbol (n / k) of little-endian byte strings, k odd: -1, 0, 1.  Defined by Transforms!Jacobi; this is its fast evaluation. *)
+JacobiLE(nLE, kLE) == CHOOSE v \in {-1, 0, 1} : TRUE
 
 (* x32 is 32 bytes, x < p and x^3 + 7 is a quadratic residue mod p. *)
 IsOnCurveX(x32) == CHOOSE v \in BOOLEAN : TRUE
